@@ -1,5 +1,6 @@
 import CTV.Model.ChainStore
 import CTV.Gen.ChainStoreBodies
+import CTV.Model.ChainStoreSpec
 import CTV.Lemmas.ChainStore
 /-!
 # C14: the hand-written chain-store model follows the bodies regenerated from services.go / log_leaf.go
@@ -37,7 +38,8 @@ theorem getByHash_tie (H : Bytes → Bytes) (s : State) (f : Faults) (h : Bytes)
       (match found s h with | some v => Gen.getByHashVerifiesHash && H v != h | none => false)
     body.2.1 = isErr (getByHash Gen.getByHashVerifiesHash H s f h) ∧
     body.1 = (if isErr (getByHash Gen.getByHashVerifiesHash H s f h) then 0 else 1) := by
-  unfold Gen.getByHashBody getByHash getByHashRaw found
+  rw [Gen.getByHashBody_eq_spec]
+  unfold Spec.getByHashBody getByHash getByHashRaw found
   cases hc : f.cacheGet <;> cases hl : s.cache.lookup h <;> cases hf : f.storeFind <;> cases hs : s.store.lookup h <;>
     simp [verified, isErr] <;> (split <;> simp_all [isErr])
 
@@ -47,7 +49,8 @@ theorem getByHash_fill (H : Bytes → Bytes) (s : State) (f : Faults) (h : Bytes
     (hfill : (Gen.getByHashBody f.cacheGet (s.cache.lookup h).isSome (f.storeFind || (s.store.lookup h).isNone)
       (match found s h with | some v => Gen.getByHashVerifiesHash && H v != h | none => false)).2.2 = true) :
     ∃ v, s.store.lookup h = some v ∧ s.cache.lookup h = none ∧ getByHash Gen.getByHashVerifiesHash H s f h = .ok v := by
-  unfold Gen.getByHashBody at hfill
+  rw [Gen.getByHashBody_eq_spec] at hfill
+  unfold Spec.getByHashBody at hfill
   unfold getByHash getByHashRaw
   cases hc : f.cacheGet <;> cases hl : s.cache.lookup h <;> cases hf : f.storeFind <;> cases hs : s.store.lookup h <;>
     simp [hc, hl, hf, hs, found, verified] at hfill ⊢
@@ -63,7 +66,8 @@ theorem add_tie (s : State) (f : AddFaults) (h v : Bytes) :
     (body.2.2.1 = true → addChain s f h v = .ok (step s (.add h v))) ∧
     (body.2.2.1 = false → body.2.1 = false → addChain s f h v = .ok s) ∧
     (body.2.2.2 = true → body.2.2.1 = true) := by
-  unfold Gen.addBody addChain
+  rw [Gen.addBody_eq_spec]
+  unfold Spec.addBody addChain
   cases f.cacheGet <;> cases (s.cache.lookup h).isSome <;> cases f.storeAdd <;> simp [isErr]
 
 /-! ## FixLogLeaf -/
@@ -109,7 +113,9 @@ theorem fixLogLeaf_tie (get : Bytes → Except Err Bytes) (extra : Bytes) :
     (bodyOf (facts get extra)).1 = !isErr (fixLogLeaf get extra) ∧
     ((bodyOf (facts get extra)).2.2 = true ↔
       (isErr (fixLogLeaf get extra) = false ∧ ((decPCEH extra).isSome = true ∨ (decCCH extra).isSome = true))) := by
-  unfold bodyOf facts Gen.fixLogLeafBody fixLogLeaf
+  unfold bodyOf
+  rw [Gen.fixLogLeafBody_eq_spec]
+  unfold facts Spec.fixLogLeafBody fixLogLeaf
   cases hp : decPCEH extra with
   | some p =>
     obtain ⟨pre, h⟩ := p
@@ -156,7 +162,8 @@ theorem build_tie (H : Bytes → Bytes) (isPrecert : Bool) (cert : Bytes) (chain
       (buildIndirect H isPrecert cert chain).isNone
     (body.1 = 1 ↔ (buildIndirectC Gen.indirectBuildChecksEncoding H isPrecert cert chain).isSome = true) ∧
     (body.2.2 = true → (Gen.indirectBuildChecksEncoding && (buildDirect isPrecert cert chain).isNone) = false) := by
-  unfold Gen.indirectBuildBody buildIndirectC
+  rw [Gen.indirectBuildBody_eq_spec]
+  unfold Spec.indirectBuildBody buildIndirectC
   cases Gen.indirectBuildChecksEncoding <;> cases (buildDirect isPrecert cert chain).isNone <;>
     cases hb : buildIndirect H isPrecert cert chain <;> simp
 
